@@ -121,8 +121,11 @@ class AppHistory(object):
                        evos, **(extra or {}))
 
 
-def chain_history(app, n, names=None, variant=0, with_new_model_at=None):
-    """Item model; e_i: AddField(f_i) + ChangeField(f_{i-1}) for i > 1."""
+def chain_history(app, n, names=None, variant=0, intro_at=None, g2_evolutions=()):
+    """Item model (group G1); e_i: AddField(f_i) + ChangeField(f_{i-1}) within the
+    group the evolution targets.  At version `intro_at` the model Tag (group G2)
+    appears as a NEW model without an evolution; the evolutions listed in
+    `g2_evolutions` target Tag only."""
     names = names or Names(models={'A': 'Item', 'B': 'Tag', 'C': 'Zed'},
                            fields={'id': 'id', 'f': 'name', 'g': 'g', 'h': 'h',
                                    'k': 'k', 'f1': 'f1', 'f2': 'f2', 'f3': 'f3',
@@ -132,19 +135,22 @@ def chain_history(app, n, names=None, variant=0, with_new_model_at=None):
                        ut=[['f']] if variant == 2 else None)}
     evolutions = []
     intro = {}
+    last = {'A': None, 'B': None}        # (field, is_char) last added per group model
     for i in range(1, n + 1):
-        muts = [mu(k='Add', m='A', f='f%d' % i,
-                   ftype='Char' if (i + variant) % 2 else 'Int',
-                   attrs={'max_length': 10 + i} if (i + variant) % 2 else {'null': True},
-                   init='i' if (i + variant) % 2 else NONE)]
-        if i > 1:
-            prev = 'f%d' % (i - 1)
-            prev_char = (i - 1 + variant) % 2
+        m = 'B' if i in g2_evolutions else 'A'
+        is_char = bool((i + variant) % 2)
+        muts = [mu(k='Add', m=m, f='f%d' % i,
+                   ftype='Char' if is_char else 'Int',
+                   attrs={'max_length': 10 + i} if is_char else {'null': True},
+                   init='i' if is_char else NONE)]
+        if last[m] is not None:
+            prev, prev_char = last[m]
             if prev_char:
-                muts.append(mu(k='Chg', m='A', f=prev, attrs={'max_length': 40 + i}))
+                muts.append(mu(k='Chg', m=m, f=prev, attrs={'max_length': 40 + i}))
             else:
-                muts.append(mu(k='Chg', m='A', f=prev, attrs={'db_index': True}))
+                muts.append(mu(k='Chg', m=m, f=prev, attrs={'db_index': True}))
+        last[m] = ('f%d' % i, is_char)
         evolutions.append({'label': 'e%d' % i, 'mutations': muts})
-        if with_new_model_at == i:
+        if intro_at == i:
             intro[i] = {'B': model('B', {'t': fld('Char', max_length=15)})}
     return AppHistory(app, names, base, evolutions, intro=intro)
